@@ -463,7 +463,7 @@ func run(c *fw.Ctx) {
 	}
 
 	// random graphs with random renumberings and shuffles
-	nrand := c.N(12000, 300000)
+	nrand := c.N(20000, 300000)
 	for it := 0; it < nrand; it++ {
 		g := randGraph(r)
 		c.Count("rand." + sizeClass(len(g.nodes)))
